@@ -95,7 +95,21 @@ func finishWait() time.Duration {
 // Abort ends the case without waiting for handlers (used after a deadlock has been established).
 func (r *Rig) Abort() {
 	r.L.WaitAccepting()
-	r.Srv.Close()
+	r.CloseBounded()
+}
+
+// CloseBounded calls Server.Close on a goroutine of its own and waits for it for at most one
+// watchdog period: on a tree where Close blocks for good (a lock held across a callback that
+// itself closes) the harness must not block with it. returned == false means Close is stuck.
+func (r *Rig) CloseBounded() (err error, returned bool) {
+	done := make(chan error, 1)
+	go func() { done <- r.Srv.Close() }()
+	select {
+	case err = <-done:
+		return err, true
+	case <-time.After(Watchdog):
+		return nil, false
+	}
 }
 
 func (r *Rig) Finish() bool {
@@ -105,12 +119,20 @@ func (r *Rig) Finish() bool {
 	r.L.WaitDrained()
 	ctx, cancel := context.WithTimeout(context.Background(), finishWait())
 	defer cancel()
-	err := r.Srv.Shutdown(ctx)
+	errc := make(chan error, 1)
+	go func() { errc <- r.Srv.Shutdown(ctx) }()
 	ok := true
-	if errors.Is(err, context.DeadlineExceeded) {
+	select {
+	case err := <-errc:
+		if errors.Is(err, context.DeadlineExceeded) {
+			ok = false
+			finishTimeouts.Add(1)
+			r.CloseBounded()
+		}
+	case <-time.After(finishWait() + 2*time.Second):
+		// Shutdown is stuck somewhere its context cannot reach (a server lock held for good)
 		ok = false
 		finishTimeouts.Add(1)
-		r.Srv.Close()
 	}
 	select {
 	case r.ServeErr = <-r.serveDone:
